@@ -484,7 +484,7 @@ PROPS["C08"] = dict(
               "BB.Props.C08.registrations_conserved", "BB.Props.C08.send_never_stuck", "BB.Props.C08.absorbing_never_stuck",
               "BB.Props.C08.out_of_range_add_panics", "BB.Props.C08.unbalanced_remove_during_send_panics", "BB.Props.C08.in_range_add_ok",
               "BB.Props.C08.panic_sticky_partial", "BB.Props.C08.panic_not_sticky", "BB.Props.C08.out_of_bounds_delta_leaves_no_trace",
-              "BB.Caster.cinv_reach", "BB.Props.C08.send_holding_the_mutex_returns", "BB.Props.C08.demoRun_fair", "BB.Caster.holder_leadsTo_out", "BB.Caster.holdRank_step", "BB.Caster.holder_enabled"],
+              "BB.Caster.cinv_reach", "BB.Props.C08.send_holding_the_mutex_returns", "BB.Props.C08.absorbing_add_returns", "BB.Props.C08.demoRun_fair", "BB.Caster.absorbing_leadsTo", "BB.Caster.no_absorber_after_send_phase", "BB.Caster.holder_leadsTo_out", "BB.Caster.holdRank_step", "BB.Caster.holder_enabled"],
     corr=[dict(family="casterword", quick=400, thorough=30000, mismatch_is_violation=True,
                nontrivial=has("panic_overflow", "panic_underflow", "panic_out_of_bounds_delta", "panic_on_bad_word", "panic_restores_valid_word",
                               "send_buffered", "send_panic_on_bad_word"),
@@ -505,7 +505,7 @@ PROPS["C08"] = dict(
                  "word-level theorems apply",
                  "buffered channels: only the word arithmetic (casterword) is tied; the protocol theorems are for the unbuffered case"],
     open_statements=["'every later call panics too' is false of the code (panic_not_sticky, known finding F6); proved instead: panic_sticky_partial",
-                     "termination of a Send that holds the mutex is a leads-to theorem (send_holding_the_mutex_returns, weak fairness of the holder's steps and of the rendezvous with receivers); acquiring the mutex (RWMutex writer vs. a stream of readers) and the termination of an absorbing negative Add are proved only as 'an enabled step exists' (absorbing_never_stuck)"],
+                     "termination of a Send that holds the mutex is a leads-to theorem (send_holding_the_mutex_returns, weak fairness of the holder's steps and of the rendezvous with receivers); an absorbing negative Add returns (absorbing_add_returns, same fairness); acquiring the mutex (RWMutex writer vs. a stream of readers) is proved only as 'an enabled step exists'"],
 )
 
 _PS_RULE = ("pubsub: 1-3 senders (1-4 Sends each) and 1-5 subscriber goroutines (1-3 subscriptions each: manual Add(1) / receive-then-Wait / Add(-1) after a PRNG delay, "
